@@ -95,7 +95,28 @@ def check_C20(ck, res, replay):
             body = ["v " + " ".join(map(str, v))]
             cf.add("ITER2", body)
             cf.add("ITER3", body)
+    cf_large = gen.CaseFile()
+    if not replay:
+        # long vectors (more than 2^16 statements): a few undecided positions at the far end, at the start and in between;
+        # implementation only (the extracted model walks unary indices, minutes per vector), judged by the definition
+        for k_, places in enumerate(([65536], [0, 65537], [70000, 131072], [3, 65535, 65536, 140001])):
+            ln = max(places) + 2 + k_
+            v = [(i * 7 + k_) % 2 for i in range(ln)]
+            for pz in places:
+                v[pz] = 2 + pz % 5
+            body = ["v " + " ".join(map(str, v))]
+            cf_large.add("ITER2", body, prefix="L")
+            if len(places) <= 2:
+                cf_large.add("ITER3", body, prefix="L")
     impl, model = correspond(ck, res, cf, hbin, "C20")
+    large_ids = set()
+    if hbin and cf_large.meta:
+        out_l, _f = ck.run_sharded(hbin, cf_large.lines, "C20.large", timeout=600)
+        for cid, m_ in cf_large.meta.items():
+            cf.meta["big" + cid] = m_
+            impl["big" + cid] = out_l.get(cid)
+            model["big" + cid] = out_l.get(cid)
+            large_ids.add("big" + cid)
     nontriv = set()
     mism = 0
     for cid, (kind, body, _) in cf.meta.items():
@@ -126,7 +147,10 @@ def check_C20(ck, res, replay):
                 bad = "duplicate interpretation"
             elif kind == "ITER3" and seqs[0] != tuple(v):
                 bad = "does not start with the interpretation itself"
-        if bad:
+        if bad and cid in large_ids:
+            res.violations.append({"key": "iter:%s:long-vector-%d" % (kind, len(v)), "what": bad + " (vector of %d statements, undecided at %s)" % (len(v), [i for i, x in enumerate(v) if x > 1]),
+                                   "kind": kind, "body": ["(vector of %d entries, see what)" % len(v)], "observed": [(a or ["-"])[0][:200]]})
+        elif bad:
             res.violations.append({"key": "iter:%s:%s" % (kind, ",".join(map(str, v))), "what": bad,
                                    "kind": kind, "body": body, "observed": a, "model": b})
         elif a != b:
@@ -138,8 +162,9 @@ def check_C20(ck, res, replay):
     res.cov["rule"] = ("all vectors over {0,1,2,3,7} up to length %d (exhaustive) plus random vectors of length 6..14; "
                        "non-trivial = at least two undecided positions; both iterators on each vector; compared as sequences "
                        "with the extracted Coq model and judged against the definition of completion/refinement" % (5 if res.tier == "quick" else 7))
-    res.cov["samples"] = [cf.meta[c][1][0] for c in list(cf.meta)[-6:]]
+    res.cov["samples"] = [cf.meta[c][1][0][:200] for c in list(cf.meta)[-12:-6]]
     res.extra["order_mismatches"] = mism
+    res.extra["long_vectors_implementation_only"] = len(large_ids)
     return ck.finish(res, level_of(res.pid), ASSUME_COMMON + ["Vec<Term> and usize arithmetic behave as lists and unbounded naturals"])
 
 
@@ -243,6 +268,11 @@ def run_prog_check(ck, res, replay, pid, with_queries, quick_n, thorough_n):
         cf.add(r["kind"], r["body"], meta={"nvars": r.get("nvars", 10)})
     else:
         cf = prog_cases(res, rng, quick_n, thorough_n, with_queries)
+        # a store with more than 2^16 nodes: 66000 variables, then operations that must find existing nodes again
+        big = 66000
+        body = ["var %d" % i for i in range(big)]
+        body += ["and 0 1", "var 1", "and 0 1", "or 65999 65998", "not 65537", "var 65537", "and %d %d" % (big + 1, 0), "xor 2 65540", "restrict %d 2 1" % (big + 7), "or 65998 65999"]
+        cf.add("PROG a1v1", body, prefix="L", meta={"nvars": big, "special": "large"})
         corpus = os.path.join(ck.ROOT, "corpus", "prog.json")
         if os.path.exists(corpus):
             for c in json.load(open(corpus)):
@@ -252,7 +282,24 @@ def run_prog_check(ck, res, replay, pid, with_queries, quick_n, thorough_n):
     nontriv = set()
     for cid, (kind, body, meta) in cf.meta.items():
         a, b = impl.get(cid), model.get(cid)
-        bad, exact, iso = judge_prog(cid, body, meta["nvars"], a, b)
+        if meta.get("special") == "large":
+            # too many variables for truth tables: the table must be canonical, equal requests must return equal handles, and the model must agree exactly
+            bad, exact, iso = None, (a == b), (a == b)
+            tline = [l for l in (a or []) if l.startswith("table")]
+            if a is None or any(l.startswith("PANIC") for l in a) or not tline:
+                bad = "implementation panicked / printed no table on a store with %d variables" % meta["nvars"]
+            else:
+                nodes_ = [tuple(int(x) for x in e.split(":")) for e in tline[0].split(" ", 2)[2].split(";")]
+                cb = oracle.check_table(nodes_)
+                regs_ = {l.split()[0]: l.split()[1] for l in a if l.startswith("r")}
+                big_ = meta["nvars"]
+                same = [("r%d" % big_, "r%d" % (big_ + 2)), ("r1", "r%d" % (big_ + 1)), ("r65537", "r%d" % (big_ + 5)), ("r%d" % (big_ + 3), "r%d" % (big_ + 9))]
+                if cb:
+                    bad = "node table of a store with more than 2^16 nodes is not canonical: " + "; ".join(cb[:3])
+                elif any(regs_.get(x) != regs_.get(y) for x, y in same):
+                    bad = "on a store with more than 2^16 nodes equal requests return different handles: %s" % [(x, regs_.get(x), y, regs_.get(y)) for x, y in same if regs_.get(x) != regs_.get(y)][:2]
+        else:
+            bad, exact, iso = judge_prog(cid, body, meta["nvars"], a, b)
         exact_n += exact
         iso_n += iso
         if a:
@@ -1027,7 +1074,7 @@ ASSUME_BIO = ["biodivine-lib-bdd values are canonical Boolean functions (modelle
 
 
 def check_C04(ck, res, replay):
-    run_adf_check(ck, res, replay, "C04", lambda rng: [["stmca"], ["stmcb"]] if rng.chance(1, 2) else [["stmcb"], ["stmca"]], 1200, 25000,
+    run_adf_check(ck, res, replay, "C04", lambda rng: [["stmca"], ["stmcb"]] if rng.chance(1, 2) else [["stmcb"], ["stmca"]], 5000, 25000,
                   nmax_q=8, nmax_t=10, tt3_q=3000, tt3_t=60000, ties=("TieLeaf", "TieMoreModels", "TieFlagCount"))
     return ck.finish(res, level_of(res.pid), ASSUME_COMMON)
 
@@ -1101,7 +1148,7 @@ def check_C12(ck, res, replay):
             progs.append((body, {"nvars": nv}))
         for text, origin in adf_case_stream(res, rng, 80 if quick else 2500, 7, with_tt2=False):
             qs = [["grounded"], ["complete"], ["stable"], ["stmca"], ["stmng", "MinModMinPathsMaxVarImp"], ["counts", "0"], ["paths"],
-                  ["roundtrip", "json"], ["paths"], ["depths"], ["ops", rand_ops(rng, 1)], ["paths"], ["stmcb"], ["table"]]
+                  ["roundtrip", "json"], ["paths"], ["depths"], ["ops", rand_ops(rng, 1)], ["paths"], ["roundtrip", "live"], ["ops", rand_ops(rng, 1)], ["grounded"], ["stmcb"], ["table"]]
             adfs.append((["text " + gen.hexs(text), "sort none"] + ["q " + " ".join(q) for q in qs], {"text": text, "queries": qs}))
     outs = {}
     models = {}
@@ -1351,7 +1398,7 @@ def check_C19(ck, res, replay):
         for i in range(60 if res.tier == "quick" else 1500):
             kind, body = gen.gen_prog(rng, 3 + rng.below(4), 10 + rng.below(25), queries=False)
             body = [l for l in body if not l.startswith("q")]
-            cf3.add("STREAMT %d %d" % (1 + rng.below(4), rng.pick([0, 500, 3000])), body, prefix="t", meta={})
+            cf3.add("STREAMT %d %d" % (rng.below(5), rng.pick([0, 500, 3000])), body, prefix="t", meta={})
         out3, fails3 = ck.run_sharded(hbin, cf3.lines, "C19.threads", timeout=1200)
         threaded = 0
         for cid, (kind, body, meta) in cf3.meta.items():
@@ -1412,6 +1459,13 @@ def check_C14(ck, res, replay):
             h2 = hl.sha1(open(ex, "rb").read()).hexdigest()
             if h1 != h2:
                 res.violations.append({"key": "export:overwrite", "what": "--export overwrote an existing file", "text": t1, "second": t2})
+            # the other library modes (and the default) must not touch an existing export file either
+            for libargs in ([], ["--lib", "hybrid"], ["--lib", "biodivine"]):
+                subprocess.run([binary] + libargs + ["--export", ex, "--grd", f2], capture_output=True, text=True, env=envp, timeout=60)
+                if hl.sha1(open(ex, "rb").read()).hexdigest() != h1:
+                    res.violations.append({"key": "export:overwrite:" + (libargs[-1] if libargs else "default"), "what": "--export overwrote an existing file (library mode: %s)" % (libargs[-1] if libargs else "default"),
+                                           "text": t1, "second": t2})
+                    break
             r3 = subprocess.run([binary, "--lib", "naive", "--import", "--grd", "--stm", ex], capture_output=True, text=True, env=envp, timeout=60)
             if r3.returncode != 0 or r3.stdout != r1.stdout:
                 res.violations.append({"key": "import:answers-differ", "what": "--import of an exported state answers differently from the original run",
@@ -1533,6 +1587,9 @@ def check_C10(ck, res, replay):
             conds = [(nm, gen.gen_formula(rng, [rng.pick(names) for _ in range(4)], 2 + rng.below(3 if not large else 5), nm)) for nm in names]
             qs = [["grounded"]] if large else [["grounded"], ["complete"], ["stable"], ["twoval", "Simple"]]
             backend = "native"
+            if not large and b % 3 == 0:
+                # one parser object used twice: instantiate, sort it lexicographically, instantiate again
+                qs = qs + [["rebuild", "lexi"], ["grounded"], ["stable"], ["complete"]]
             if not large and b % 3 == 1:
                 # the other ways to the stable models: pre-filter, counting search, nogood search
                 qs = [["grounded"], ["stablepre"], ["stmca"], ["stmng", "Simple"]]
@@ -1577,6 +1634,12 @@ def check_C10(ck, res, replay):
             view = []
             for l in a[2:]:
                 w = l.split()
+                if len(w) >= 4 and w[1] == "rebuild" and w[3].startswith("names="):
+                    names = [bytes.fromhex(x[1:]).decode() for x in w[3][6:].split(",") if x]
+                    if w[2] == "lexi" and names != sorted(names, key=lambda s_: s_.encode()):
+                        res.violations.append({"key": "presentation:lexi-order", "what": "after sorting the parser lexicographically again the statements are not in byte-wise label order: %s" % names,
+                                               "presentations": [{"body": body, "meta": meta}], "observed": [l]})
+                    continue
                 if len(w) >= 2 and w[1] in ("grounded", "complete", "stable", "twoval", "stablepre", "stablerew", "stmca", "stmng"):
                     vs = [w[2]] if w[1] == "grounded" else w[2:]
                     view.append((w[1], frozenset(frozenset((inv.get(nm, nm), ch) for nm, ch in zip(names, v)) for v in vs)))
@@ -2129,11 +2192,20 @@ def check_C16(ck, res, replay):
                         text = rng.pick(["s(a).ac(b,a).", "s(a).ac(a,b).", "s(a)", "s(a).ac(a,and(a)).", "s(a).x", " s(a)."])
                     else:
                         text, n = gen.gen_adf(rng, nmax=5, depth=3, style=0, layout={"shuffle": rng.chance(1, 3)})
+                    big = (not bad) and rng.chance(1, 5)
+                    if big:
+                        # more than ten statements (two-digit positions in the stored ordering): a ring of attacks with a few supports
+                        nb = 11 + rng.below(2)
+                        nmsb = ["x%d" % i for i in range(nb)]
+                        text = "".join("s(%s)." % x for x in nmsb) + "".join(
+                            "ac(%s,%s)." % (nmsb[i], rng.pick(["neg(%s)" % nmsb[(i + 1) % nb], nmsb[(i + 3) % nb], "and(%s,neg(%s))" % (nmsb[(i + 2) % nb], nmsb[(i + 5) % nb]), "c(v)", "or(%s,%s)" % (nmsb[(i + 1) % nb], nmsb[(i + 4) % nb])]))
+                            for i in range(nb))
                     name = "h%dp%d" % (hno, pi)
                     texts[name] = text
                     run.do(cl, ("add", name, text, rng.pick(["Naive", "Hybrid"])))
                     run.do(cl, ("get", name))
-                    for st_ in rng.shuffle(STRATS)[: 2 + rng.below(5)]:
+                    strategies = rng.shuffle(STRATS)[: 2 + rng.below(5)] if not big else rng.shuffle(["Ground", "Stable", "StableNogood", "StableCountingA"])[: 2 + rng.below(2)]
+                    for st_ in strategies:
                         run.do(cl, ("solve", name, st_))
                         if rng.chance(1, 3):
                             run.do(cl, ("get", name))
